@@ -176,6 +176,9 @@ def run_property(mod, tier, seed, only=None):
     if only:
         specs = [s for s in specs if only in s["id"]]
     results = pmap(mod, specs)
+    if hasattr(mod, "post") and not only:
+        # cross-case oracles (e.g. symmetry / transitivity over a matrix of answers)
+        results.append({"id": "post", "violations": mod.post(results), "wall": 0})
     herr = [r for r in results if "harness_error" in r]
     if herr:
         for r in herr[:5]:
